@@ -33,13 +33,13 @@ def main():
             old = json.load(open(mp))
         meta = dict(
             seed=name, property_targeted=prop,
-            origin=('reverse of a fix: commit in /repo' if name.startswith('RC') else 'independent sub-agent given only the text of the property and a scratch worktree (round %s)' % {'1': '1', '2': '1', '3': '2', '4': '2', '5': '3: asked for changes that need >= 5 ops or >= 4 actors or >= 3 keys/members', '6': '3: asked for changes that need >= 5 ops or >= 4 actors or >= 3 keys/members'}[name[-1]]),
+            origin=('reverse of a fix: commit in /repo' if name.startswith('RC') else 'independent sub-agent given only the text of the property and a scratch worktree (round %s)' % ('4 (second session): asked for deep changes - >= 5 ops, >= 4 actors, >= 3 keys/members, a particular interleaving / merge order / save point or an unusual legal input' if os.path.exists(os.path.join(sd, 'round')) else {'1': '1', '2': '1', '3': '2', '4': '2', '5': '3: asked for changes that need >= 5 ops or >= 4 actors or >= 3 keys/members', '6': '3: asked for changes that need >= 5 ops or >= 4 actors or >= 3 keys/members'}[name[-1]])),
             files_changed=files,
             what_it_needs_to_manifest=(' '.join(notes.split())[:1400] if notes else ''),
             confirmed_by_me=confirm.get(name, old.get('confirmed_by_me', {})),
             how_confirmed="seeded/confirm.sh in a scratch worktree of /repo: demo passes on the unchanged tree, patch applies and builds, demo fails with it, pinned baseline suite run twice with it",
             checks_that_raise_a_violation=dict(old.get('checks_that_raise_a_violation', {}), **sweeps.get(name, {})),
-            how_run="seeded/run_all.sh <tier>: frozen copy of /verif, patch applied to a scratch copy of /repo (VERIF_REPO), every check's command",
+            how_run="seeded/run_all.sh / run_par.sh <tier>: frozen copy of /verif, patch applied to a scratch copy of /repo (VERIF_REPO), every check's command",
         )
         t = meta['checks_that_raise_a_violation']
         meta['caught_by_target_property'] = {tier: (prop in [x.split('(')[0] for x in v]) for tier, v in t.items()}
